@@ -78,6 +78,12 @@ func checkC04(c *Ctx) {
 	checkFormatterTables(c, gen)
 	checkParsePointerAssertions(c, ev, gen)
 
+	checkOptionalFile(c, ev)
+	checkFacadeFormats(c, ev)
+	// the generated server routes on the embedded flattened document: it must be the flattened
+	// document (a $ref'ed path item of the original has no operations to route)
+	checkEmbeddedStores(c, "C04.R1.routed-document", gen)
+
 	checkResponseDispatch(c, ev)
 	checkResponseGo(c, gen)
 	checkMediaFamilies(c, "C04.R3.media", gen)
@@ -519,4 +525,80 @@ func checkDiscriminatorAgreement(c *Ctx, rule string, gen *packages.Package) {
 	c.Check(written[0] == keyed[0], rule, "generator.makeGenDefinitionHierarchy › Discriminates key ≡ subtype DiscriminatorValue", c.posOf(gen, kpos), "both discee."+written[0],
 		fmt.Sprintf("subtypes emit discee.%s as discriminator value but the base type's unmarshaller looks them up by discee.%s: a subtype whose x-class differs from its definition name is not restored", written[0], keyed[0]))
 	c.Ok(rule, "generator.makeGenDefinitionHierarchy › subtype DiscriminatorValue from discee."+written[0], c.posOf(gen, wpos), "writer side")
+}
+
+
+// checkOptionalFile: wherever the server's file binder lets http.ErrMissingFile through the
+// error arm, an arm of its own must take it before the value is bound: otherwise an omitted
+// optional file reaches the handler as a non-nil runtime.File with nil data.
+func checkOptionalFile(c *Ctx, ev *tmpl.Evaluator) {
+	rule := "C04.R1.optional-file"
+	c.Rule(rule, "every `err != http.ErrMissingFile` exclusion in the server's file binder is followed, under the same guards and before the value is bound, by an `err == http.ErrMissingFile` arm", 1)
+	l := linearOf(c, ev, "serverParameter")
+	if l == nil {
+		c.Anchor(rule, "template serverParameter", "not found")
+		return
+	}
+	excl := l.Find(regexp.MustCompile(`&& \w+ != http\.ErrMissingFile`))
+	arms := l.Find(regexp.MustCompile(`else if \w+ == http\.ErrMissingFile \{`))
+	binds := l.Find(regexp.MustCompile(`\.bind⟦pascalize \.ID⟧\(`))
+	if len(excl) == 0 {
+		c.Unk(rule, "serverParameter › file binder", l.Tree.File, "no ErrMissingFile exclusion found")
+		return
+	}
+	for i, e := range excl {
+		next := len(l.Text)
+		for _, b := range binds {
+			if b.Start > e.End && b.Start < next {
+				next = b.Start
+			}
+		}
+		ok := false
+		for _, a := range arms {
+			if a.Start > e.End && a.Start < next && tmpl.GuardString(a.Guards) == tmpl.GuardString(e.Guards) {
+				ok = true
+			}
+		}
+		c.Check(ok, rule, fmt.Sprintf("serverParameter › file binder #%d › a missing optional file is a case of its own", i+1), l.Tree.PosStr(e.Pos), "no-op arm under ["+tmpl.GuardString(e.Guards)+"]",
+			"http.ErrMissingFile is let through the error arm under ["+tmpl.GuardString(e.Guards)+"] but no arm takes it before the value is bound: the handler gets &runtime.File{Data: nil} for a file the client did not send")
+	}
+}
+
+// checkFacadeFormats: every generated client constructor that takes a strfmt.Registry and
+// hands it to the operation clients replaces nil by strfmt.Default first (response readers
+// call formats.Parse on it).
+func checkFacadeFormats(c *Ctx, ev *tmpl.Evaluator) {
+	rule := "C04.R2.formats-default"
+	c.Rule(rule, "the client facade constructor that distributes the formats registry to the operation clients defaults a nil registry to strfmt.Default before doing so", 1)
+	l := linearOf(c, ev, "clientFacade")
+	if l == nil {
+		c.Anchor(rule, "template clientFacade", "not found")
+		return
+	}
+	funcs := l.Find(regexp.MustCompile(`(?m)^func (\w+)\(([^)]*)\)`))
+	n := 0
+	for i, f := range funcs {
+		end := len(l.Text)
+		if i+1 < len(funcs) {
+			end = funcs[i+1].Start
+		}
+		body := l.Text[f.End:end]
+		pm := regexp.MustCompile(`(\w+) strfmt\.Registry`).FindStringSubmatch(f.Match[2])
+		if pm == nil {
+			continue
+		}
+		reg := regexp.QuoteMeta(pm[1])
+		// distributes it itself: passes it to a sub-client constructor `x.New(transport, formats)`
+		dist := regexp.MustCompile(`\.New\(\w+, ` + reg + `\)`).FindStringIndex(body)
+		if dist == nil {
+			continue // delegates to another constructor of this file
+		}
+		n++
+		def := regexp.MustCompile(`if ` + reg + ` == nil \{\s*` + reg + ` = strfmt\.Default`).FindStringIndex(body)
+		c.Check(def != nil && def[0] < dist[0], rule, "clientFacade › func "+f.Match[1]+" › nil registry defaults to strfmt.Default", l.Tree.PosStr(f.Pos), "defaulted before it is handed to the operation clients",
+			"func "+f.Match[1]+" hands its formats registry to the operation clients without defaulting nil to strfmt.Default: a client built with New(transport, nil) panics in formats.Parse on the first response with a formatted header")
+	}
+	if n == 0 {
+		c.Unk(rule, "clientFacade › constructors", l.Tree.File, "no constructor distributing a strfmt.Registry found")
+	}
 }
